@@ -1196,6 +1196,15 @@ class Unit:
             # own: the body is the closure's block, verbatim; the signature (closures have none) comes from `//@sig`
             it = self.closure_item(f, it, int(opts["closure"]), name, opts.get("after"))
             name = opts.get("as", "%s_closure%s" % (name, opts["closure"]))
+        if opts.get("exprclosure"):
+            # R26 (expression form): the N-th closure whose body is an expression, `|params| EXPR` (counted separately from the
+            # block closures), is put under contract as a function of its own: the body is `{ EXPR }`, EXPR verbatim up to
+            # the `,` / `)` that ends the closure argument
+            if opts.get("closure"):
+                raise ExtractError("exprclosure= and closure= exclude each other")
+            it = self.closure_item(f, it, int(opts["exprclosure"]), name, opts.get("after"), expr=True)
+            name = opts.get("as", "%s_exprclosure%s" % (name, opts["exprclosure"]))
+            opts["closure"] = opts["exprclosure"]
         if opts.get("arm"):
             # R30: the block of the match arm whose pattern matches the regex `arm=` is put under contract as a function of
             # its own (the arms of the protocol handler's dispatcher): body = the arm's block, verbatim; signature from `//@sig`
@@ -1293,6 +1302,8 @@ class Unit:
             raise ExtractError("fn %s has no body" % name)
         # --- body
         body = f.src[it.body_open:it.end]          # includes outer braces
+        if getattr(it, "expr_body", False):
+            body = "{" + body[1:] + "}"            # R26 expression closure: the character before EXPR is whitespace
         off0 = it.body_open
         body = strip_comments(body)
         body = rw.cfg_select(body)
@@ -1564,7 +1575,7 @@ class Unit:
         return o
 
     @staticmethod
-    def closure_item(f, it, nth, name, after=None):
+    def closure_item(f, it, nth, name, after=None, expr=False):
         """locate the nth block closure inside function item `it` of RustFile f; returns an Item-like object.
         With `after` (a regex, e.g. a match-arm pattern) only closures that start behind the first match of the regex
         inside the function are counted: `closure=1 after="Message::RevokeCommitmentTx\(m\) =>"` is the closure of that arm."""
@@ -1594,9 +1605,26 @@ class Unit:
                         c += 1
                     if c < hi and toks[c].kind == "punct" and toks[c].text == "{":
                         e = match_close(toks, c)
-                        found.append((toks[c].start, toks[e].end))
+                        if not expr:
+                            found.append((toks[c].start, toks[e].end))
                         k = c + 1
                         continue
+                    if expr and c < hi and c > j + 1:
+                        # expression closure: EXPR runs to the `,` / `)` / `]` / `}` / `;` at depth 0 that ends the argument
+                        d2 = 0
+                        e = c
+                        while e < hi:
+                            te = toks[e]
+                            if te.kind == "punct" and te.text in "([{":
+                                d2 += 1
+                            elif te.kind == "punct" and te.text in ")]}":
+                                if d2 == 0:
+                                    break
+                                d2 -= 1
+                            elif te.kind == "punct" and te.text in ",;" and d2 == 0:
+                                break
+                            e += 1
+                        found.append((toks[c].start - 1, toks[e].start))
                     k = j
             k += 1
         if after:
@@ -1613,6 +1641,9 @@ class Unit:
         o = _It()
         o.start, o.body_open, o.end = found[nth - 1][0], found[nth - 1][0], found[nth - 1][1]
         o.kind, o.name = "fn", name
+        o.expr_body = bool(expr)
+        if expr and not f.src[o.start].isspace():
+            raise ExtractError("R26: expression closure of %s does not start after white space" % name)
         return o
 
     @staticmethod
